@@ -15,7 +15,7 @@ def mk_case(pg):
         ex = pg.exists.get(p, 'sym')
         files[p] = {'contents': [None] if p in pg.invalid else [content], 'exists': ex}
     sym = {n: ppfamily.ALT_BODIES[n] for n in pg.names}
-    return PPCase(text, path='top.sv', sym_defines=sym, files=files, include_paths=pg.include_paths, strip=getattr(pg, 'strip', 'sym'),
+    return PPCase(text, path=getattr(pg, 'top_path', 'top.sv'), sym_defines=sym, files=files, include_paths=pg.include_paths, strip=getattr(pg, 'strip', 'sym'),
                   ignore=pg.ignore, label=pg.label)
 
 
